@@ -1,18 +1,257 @@
-//! C11 — placeholder, replaced below.
+//! C11 — stateless pipelines are record-local: restart / redelivery / reordering equivalence.
+
 use super::{Budget, Property, ShrinkCaps};
 use crate::case::*;
 use crate::common::*;
+use crate::gen::*;
 use crate::rng::Rng;
 
 pub struct C11;
 
+fn records(case: &Case) -> Vec<&Piece> {
+    case.pieces.iter().filter(|p| p.kind == Kind::Rec).collect()
+}
+
+fn stream_of(recs: &[&Piece]) -> Vec<u8> {
+    let mut v = Vec::new();
+    for r in recs {
+        v.extend_from_slice(&r.bytes.0);
+        v.push(b'\n');
+    }
+    v
+}
+
 impl Property for C11 {
-    fn id(&self) -> &'static str { "C11" }
-    fn level(&self) -> &'static str { "exploration" }
-    fn rule(&self) -> &'static str { "" }
-    fn assumptions(&self) -> Vec<String> { vec![] }
-    fn shrink_caps(&self) -> ShrinkCaps { ShrinkCaps { drop_pieces: true, simplify_records: false, shrink_raw: true, drop_opts: true } }
-    fn budget(&self, _tier: Tier) -> Budget { Budget { seconds: 5, max_cases: 10 } }
-    fn generate(&self, _rng: &mut Rng, _tier: Tier) -> Case { Case::new("C11", "todo") }
-    fn check(&self, _case: &Case, _ctx: &mut Ctx) -> Option<Violation> { None }
+    fn id(&self) -> &'static str {
+        "C11"
+    }
+    fn level(&self) -> &'static str {
+        "exploration"
+    }
+    fn rule(&self) -> &'static str {
+        "A scenario = a list of up to 20 generated records (some of them redeliveries of an earlier record in a fresh, value-preserving spelling) x a stateless pipeline (--set, --split-by, --filter, --select; generated templates, documented examples, regex functions with patterns taken from the records; no & selectors) x an output style x a regex cache size in {0,1,2,64} that is the same in all runs of the scenario. Record-level transport events applied by the harness: restart of the consumer at a record boundary k (run on A[..k], then on A[k..]), redelivery and reordering (a seeded plan pi with repetitions and drops). Oracle, all from executions of the same build: H = stdout on the empty stream, body(r) = stdout on [r] minus H; stdout(A) = H + sum body(r_i) (solo-sum); stdout(A[..k]) + body part of stdout(A[k..]) = stdout(A) (restart); stdout(pi(A)) = H + sum body(r_pi(j)) (redelivery); two spellings of the same record have the same body (spelling). Comparisons are on whole byte strings. evaluations = jawk executions; non-trivial = at least 2 records and a transport event (cut strictly inside the list, or a plan that is not the identity); distinct = distinct abstract traces."
+    }
+    fn assumptions(&self) -> Vec<String> {
+        vec![
+            "weak fit for this technique: the 'faults' are record-level transport events (restart, redelivery, reordering), decided with reference runs of the same code only".into(),
+            "scenarios in which any run fails or panics are skipped (panics are C05's subject)".into(),
+        ]
+    }
+    fn shrink_caps(&self) -> ShrinkCaps {
+        ShrinkCaps {
+            drop_pieces: true,
+            simplify_records: false,
+            shrink_raw: false,
+            drop_opts: true,
+        }
+    }
+    fn budget(&self, tier: Tier) -> Budget {
+        match tier {
+            Tier::Quick => Budget {
+                seconds: 25,
+                max_cases: 30_000,
+            },
+            Tier::Thorough => Budget {
+                seconds: 600,
+                max_cases: 3_000_000,
+            },
+        }
+    }
+
+    fn generate(&self, rng: &mut Rng, tier: Tier) -> Case {
+        let mut case = Case::new("C11", "transport");
+        let n = rng.range(0, if tier == Tier::Thorough { 20 } else { 10 });
+        let mut vals: Vec<Val> = Vec::new();
+        for i in 0..n {
+            if i > 0 && rng.chance(1, 4) {
+                // redelivery of an earlier record in a fresh spelling
+                let j = rng.below(vals.len());
+                let v = vals[j].clone();
+                let id = case.pieces[j].id.unwrap_or(j as u32);
+                case.pieces.push(Piece::rec(spell(&v, rng, 2), id));
+                vals.push(v);
+                // keep ids: the id of a redelivery is the id of the original
+                let last = case.pieces.len() - 1;
+                case.pieces[last].tag = "redelivery".into();
+                continue;
+            }
+            let v = gen_record(rng, i as u32, false);
+            // identity = index of first delivery
+            case.pieces.push(Piece::rec(spell(&v, rng, 1), i as u32));
+            vals.push(v);
+        }
+        // ids of redeliveries must point at the first delivery's id
+        let mut wish = PipeWish::any();
+        wish.max_class = Class::Stateless;
+        wish.allow_corpus = true;
+        let mut pipe = gen_pipe(rng, &wish);
+        pipe.opts.retain(|o| !o[0].starts_with("--regular-expression-cache-size"));
+        if pipe.uses_regex || rng.chance(1, 3) {
+            pipe.opts.push(vec![format!(
+                "--regular-expression-cache-size={}",
+                rng.pick(&[0usize, 1, 2, 64])
+            )]);
+            if !pipe.uses_regex && pipe.style != Style::Csv {
+                pipe.opts.push(vec!["--select".into(), format!("{}=rx", rng.pick(REGEX_SELECT_EXPRS))]);
+            }
+        }
+        case.opts = pipe.opts;
+        let nrec = case.pieces.len();
+        case.set("cut", rng.below(nrec + 1) as i64);
+        // transport plan: permutation with repetitions and drops
+        let mut plan: Vec<usize> = (0..nrec).collect();
+        match rng.below(4) {
+            0 => rng.shuffle(&mut plan),
+            1 => {
+                plan = (0..rng.range(0, nrec + 3)).map(|_| rng.below(nrec.max(1))).collect();
+                if nrec == 0 {
+                    plan.clear();
+                }
+            }
+            2 => {
+                plan.reverse();
+                if nrec > 0 {
+                    plan.push(rng.below(nrec));
+                }
+            }
+            _ => {
+                plan.retain(|_| rng.chance(2, 3));
+                rng.shuffle(&mut plan);
+            }
+        }
+        case.strs.insert("plan".into(), serde_json::to_string(&plan).unwrap());
+        case
+    }
+
+    fn check(&self, case: &Case, ctx: &mut Ctx) -> Option<Violation> {
+        if classify(&case.opts) != Class::Stateless || case.opts.iter().flatten().any(|t| t.contains('&')) {
+            ctx.stats.invalid = true;
+            return None;
+        }
+        let recs = records(case);
+        let n = recs.len();
+        macro_rules! ok_run {
+            ($input:expr) => {{
+                let r = ctx.exec(ref_spec(case, $input));
+                if !r.outcome.is_ok() {
+                    ctx.stats.invalid = true;
+                    ctx.jawk_panic = None;
+                    ctx.stats.probe("skipped: a run failed or panicked");
+                    return None;
+                }
+                r.obs.stdout
+            }};
+        }
+        let h = ok_run!(b"");
+        let mut bodies: Vec<Vec<u8>> = Vec::new();
+        for r in &recs {
+            let solo = ok_run!(&stream_of(&[*r]));
+            if !solo.starts_with(&h) {
+                return viol(
+                    "C11.solo-sum",
+                    format!("output for one record does not start with the output for the empty stream {}: {}", show(&h), show(&solo)),
+                );
+            }
+            bodies.push(solo[h.len()..].to_vec());
+        }
+        // spelling: redeliveries of the same abstract record have the same body
+        for i in 0..n {
+            for j in 0..i {
+                if recs[i].id.is_some() && recs[i].id == recs[j].id && recs[i].tag == "redelivery" {
+                    ctx.stats.fault("record.redelivered-respelled", 1);
+                    if bodies[i] != bodies[j] {
+                        return viol(
+                            "C11.spelling",
+                            format!(
+                                "two spellings of the same value produce different rows: {} -> {} but {} -> {}",
+                                show(&recs[j].bytes.0),
+                                show(&bodies[j]),
+                                show(&recs[i].bytes.0),
+                                show(&bodies[i])
+                            ),
+                        );
+                    }
+                    break;
+                }
+            }
+        }
+        let whole = ok_run!(&stream_of(&recs));
+        let mut expect = h.clone();
+        for b in &bodies {
+            expect.extend_from_slice(b);
+        }
+        if whole != expect {
+            return viol(
+                "C11.solo-sum",
+                format!(
+                    "output for {} records is not the concatenation of the outputs for each record alone (first difference at byte {}): {} vs {}",
+                    n,
+                    common_prefix(&whole, &expect),
+                    show(&whole),
+                    show(&expect)
+                ),
+            );
+        }
+        // restart at a record boundary
+        let k = (case.param("cut").max(0) as usize).min(n);
+        let a = ok_run!(&stream_of(&recs[..k]));
+        let b = ok_run!(&stream_of(&recs[k..]));
+        if k > 0 && k < n {
+            ctx.stats.fault("consumer.restart-at-record-boundary", 1);
+            ctx.stats.nontrivial = true;
+        }
+        if !b.starts_with(&h) {
+            return viol("C11.restart", format!("restarted run does not start with the header: {}", show(&b)));
+        }
+        let mut joined = a.clone();
+        joined.extend_from_slice(&b[h.len()..]);
+        if joined != whole {
+            return viol(
+                "C11.restart",
+                format!(
+                    "stopping after {k} of {n} records and restarting on the rest changes the rows (first difference at byte {}): {} vs uninterrupted {}",
+                    common_prefix(&joined, &whole),
+                    show(&joined),
+                    show(&whole)
+                ),
+            );
+        }
+        // redelivery / reordering
+        let plan: Vec<usize> = case
+            .strs
+            .get("plan")
+            .and_then(|s| serde_json::from_str::<Vec<usize>>(s).ok())
+            .unwrap_or_default()
+            .into_iter()
+            .filter(|i| *i < n)
+            .collect();
+        let identity = plan.len() == n && plan.iter().enumerate().all(|(i, p)| i == *p);
+        if !identity && n >= 1 {
+            let permuted: Vec<&Piece> = plan.iter().map(|i| recs[*i]).collect();
+            let out = ok_run!(&stream_of(&permuted));
+            let mut expect = h.clone();
+            for i in &plan {
+                expect.extend_from_slice(&bodies[*i]);
+            }
+            ctx.stats.fault("upstream.reorder-or-redeliver", 1);
+            if n >= 2 {
+                ctx.stats.nontrivial = true;
+            }
+            if out != expect {
+                return viol(
+                    "C11.redelivery",
+                    format!(
+                        "delivering the records in order {plan:?} does not permute/repeat the rows accordingly (first difference at byte {}): {} vs {}",
+                        common_prefix(&out, &expect),
+                        show(&out),
+                        show(&expect)
+                    ),
+                );
+            }
+        }
+        if has_opt(&case.opts, "--regular-expression-cache-size") {
+            ctx.stats.probe("regex cache size set");
+        }
+        None
+    }
 }
